@@ -32,6 +32,11 @@ from .values import (
 )
 
 
+import itertools as _it
+
+_permctr = _it.count(1)
+
+
 class ReturnEx(Exception):
     def __init__(self, value):
         self.value = value
@@ -1075,7 +1080,9 @@ class Interp:
         return self.call(fn, args, kwargs)
 
     def e_Lambda(self, node, env):
-        raise Unsupported("lambda")
+        fd = ast.FunctionDef(name="<lambda>", args=node.args, body=[ast.Return(value=node.body, lineno=node.lineno, col_offset=0)],
+                             decorator_list=[], returns=None, type_comment=None, lineno=node.lineno, col_offset=node.col_offset)
+        return FuncValue(fd, env, self._qual(env, "<lambda>"), env.module)
 
     def e_ListComp(self, node, env):
         r = self._comprehension(node, env, "list")
@@ -1770,8 +1777,32 @@ class Interp:
             x = a[0]
             if hasattr(x, "pyvc_sorted"):
                 return x.pyvc_sorted(it)
+            if isinstance(x, SSeq) and not T.is_const(x.n):
+                # sorting a symbolic sequence by an arbitrary key: some permutation of it
+                perm = T.uf(f"perm!{next(_permctr)}", [T.INT], T.INT)
+                c = cur()
+
+                def elem(i, x=x, perm=perm):
+                    i = T.lift(i, T.INT)
+                    c.axiom(T.implies(T.and_(T.le(0, i), T.lt(i, x.n)), T.and_(T.le(0, perm(i)), T.lt(perm(i), x.n))))
+                    return x.elem(perm(i))
+
+                r = SSeq(x.n, elem, f"sorted({x.desc})")
+                r.symtype = x.symtype
+                r.permuted_entries_of = x.entries_of
+                return r
             items = list(it.iterate(x))
-            if all(isinstance(v, (int, float, str)) for v in items):
+            if len(items) <= 1:
+                return items
+            keyf = k.get("key")
+            if keyf is not None:
+                keys = [it.call(keyf, [v], {}) for v in items]
+                if all(isinstance(v, (int, float, str)) for v in keys):
+                    order = sorted(range(len(items)), key=lambda i: keys[i])
+                    if k.get("reverse"):
+                        order.reverse()
+                    return [items[i] for i in order]
+            elif all(isinstance(v, (int, float, str)) for v in items):
                 return sorted(items)
             raise Unsupported("sorted of symbolic values")
 
